@@ -27,7 +27,12 @@ func c10Enc(nodes []ir.Node, uid map[*ir.Instruction]int) string {
 					lbl = "=" + hexs(string(ref))
 				}
 			}
-			parts = append(parts, "I", itoa(uid[n]), b01(n.IsBranch), b01(n.IsConditional), b01(n.IsTerminal), lbl, n.Opcode, itoa(len(n.Operands)))
+			// suffixes travel inside the opcode token (VMOVDQU32.Z): a zeroing-masked move is another instruction
+			opc := n.Opcode
+			if len(n.Suffixes) > 0 {
+				opc += "." + strings.Join(n.Suffixes, ".")
+			}
+			parts = append(parts, "I", itoa(uid[n]), b01(n.IsBranch), b01(n.IsConditional), b01(n.IsTerminal), lbl, opc, itoa(len(n.Operands)))
 			for k, op := range n.Operands {
 				if r, ok := op.(reg.Register); ok {
 					parts = append(parts, "R", encReg(r))
@@ -81,9 +86,10 @@ func c10NBRef(nodes []ir.Node) bool {
 }
 
 type c10Out struct {
-	o      *out // acceptor requests (judged: a mismatch is a concrete violation)
-	exact  *out // line-by-line comparison with the model passes (informational, see vlib/props/c10.py)
-	stats  map[string]int
+	o     *out // acceptor requests (judged: a mismatch is a concrete violation)
+	exact *out // line-by-line comparison with the model passes (informational, see vlib/props/c10.py)
+	stats map[string]int
+	tag   string // when set: prefix of the statistics keys instead of the pass name (the request keeps the pass name)
 }
 
 // c10Judge emits the requests for one run of a pass: orig = the nodes before (with the operands the instructions
@@ -100,6 +106,10 @@ func (c *c10Out) judge(passName string, orig []ir.Node, uid map[*ir.Instruction]
 		resp = c10EncResult(fn.Nodes, uid)
 	}
 	stats := c.stats
+	reqPass := passName
+	if c.tag != "" {
+		passName = c.tag
+	}
 	if err == nil && len(fn.Nodes) < len(orig) {
 		stats[passName+"_changed"]++
 		kept := map[ir.Node]bool{}
@@ -133,8 +143,8 @@ func (c *c10Out) judge(passName string, orig []ir.Node, uid map[*ir.Instruction]
 		nb = "nbref=1"
 		stats[passName+"_nbref"]++
 	}
-	c.exact.emit("cleanup "+passName+" "+req, resp)
-	c.o.emit("accept-cleanup "+passName+" "+nb+" "+req+" => "+resp, "ok")
+	c.exact.emit("cleanup "+reqPass+" "+req, resp)
+	c.o.emit("accept-cleanup "+reqPass+" "+nb+" "+req+" => "+resp, "ok")
 }
 
 func (c *c10Out) run(passName string, fn *ir.Function, p func(*ir.Function) error) {
@@ -344,6 +354,12 @@ func init() {
 		// moves become self-moves
 		for k := 0; k < *f.n; k++ {
 			c10Compile(c, r.fork())
+		}
+		// register moves of EVERY opcode and width of the form table (c10vec.go): a complete sweep of author-written
+		// self-moves, random move functions over vector / opmask registers, and functions over vector / opmask
+		// virtual registers through the real pass.Compile (self-moves made by the allocator)
+		if err := c10VecStreams(c, db, r.fork(), *f.n); err != nil {
+			return err
 		}
 		stats["build_failed"] = 0
 		for _, n := range c09BuildFailed {
